@@ -4,7 +4,7 @@
 #undef _MIR_get_thunk
 #undef _MIR_redirect_thunk
 #ifndef H_NTHUNKS
-#define H_NTHUNKS 6
+#define H_NTHUNKS 7
 #endif
 static char h_thunks[H_NTHUNKS][16];
 static void *h_thunk_target[H_NTHUNKS];
